@@ -1862,7 +1862,16 @@ impl<'a> Parser<'a> {
         let previous = s.previous.clone();
         let name = s.identifier_constant(&previous);
 
-        let instance_local_name = s.compiler().locals[0].name.clone();
+        // The receiver is the first parameter of the enclosing method, also when `super` is used in
+        // a function or lambda nested in that method (which captures it like any other variable).
+        let instance_local_name = s
+            .compilers
+            .iter()
+            .rev()
+            .find(|c| c.kind != FunctionKind::Function)
+            .or_else(|| s.compilers.last())
+            .map(|c| c.locals[0].name.clone())
+            .unwrap_or_default();
         s.named_variable(Token::from_string(instance_local_name.as_str()), false);
         if s.match_token(TokenKind::LeftParen) {
             let arg_count = s.argument_list(
